@@ -95,14 +95,14 @@ func HarnessC14Routes() {
 var verifC14ActionYAML string
 
 func verifC14ReadAction(name string) ([]byte, error) {
-	if name == "/r/act/action.yml" {
+	if name == "/r/act/action.yml" || name == "/r/broken/action.yml" {
 		return []byte(verifC14ActionYAML), nil
 	}
 	return nil, &verifC10Err{"no such file " + name}
 }
 
 func verifC14Stat(name string) (os.FileInfo, error) {
-	if name == "/r/act/index.js" {
+	if name == "/r/act/index.js" || name == "/r/broken/index.js" {
 		return nil, nil
 	}
 	return nil, &verifC10Err{"no such file " + name}
